@@ -1,25 +1,66 @@
-import Sucds.Props.C14
-import Sucds.Props.C01
-import Sucds.Props.C07
-/-! # C15 — results do not depend on build configuration (partial)
+import Sucds.Proofs.ConfigQueries
+import Sucds.Proofs.ConfigBytes
+import Sucds.Proofs.ConfigEF
+/-! # C15 — results do not depend on build configuration
 
-Every query theorem of the other properties has the form `∀ cfg, f cfg s a = .ok (spec s a)` with a
-right-hand side that does not mention `cfg`; configuration independence (and freedom from overflow
-panics and debug assertions) for those operations are corollaries, collected here as they are proved. -/
+A build configuration is `c : Cfg` = (overflow checks + debug assertions on/off, `intrinsics` feature on/off); every
+model function whose Rust original depends on the build takes `c`. For **every pair** `c c'`:
+
+* **Builders produce the same value** — hence the same serialized bytes and the same answers to every later
+  query: `R9.build`, `DA.build`, `EF.ofBuilder`/`enableRank`, `SA.fromBV`, `DacB.fromSlice`, `DacO.fromSlice`,
+  `PS.fromSlice`, `WM.new` (`Config.*_cfg`), with the byte-level corollaries `Config.bytes_*` (`codec.put` and
+  `codec.size` equal). `BitVector` and `CompactVector` constructors/mutators do not depend on the build at all.
+* **Queries answer the same** on in-contract workloads, for every argument: one corollary per property
+  (`Config.c01` … `Config.c17`), each obtained from `Cxx.holds c` and `Cxx.holds c'` — the right-hand sides of the
+  full statements do not mention the configuration. In particular every result is `.ok _` in *both* checked
+  configurations: no overflow check and no debug assertion can fire, and no answer depends on wrapping arithmetic.
+  `binsearch`/`binsearch_range`, which C04 only pins down up to the choice among equal values, are shown to be a
+  function of the stored list alone (`Config.c04_binsearch`).
+* The primitives themselves: C14 (`config_independent`).
+The statement below is the conjunction of these theorems' statements (their full texts are in
+`Sucds/Proofs/ConfigQueries.lean`, `ConfigBytes.lean`, `ConfigEF.lean`, `ConfigPrim.lean`, `ConfigBuild.lean`). -/
 namespace Sucds.C15
-open Sucds Sucds.Spec
-theorem primitives : type_of% (@C14.config_independent) := @C14.config_independent
+open Sucds Sucds.Config
 
-theorem rank9_rank1 (c c' : Cfg) (bv : BV) (h : bv.Inv) (pos : Nat) :
-    (R9Index.buildRank c bv).rank1 c bv pos = (R9Index.buildRank c' bv).rank1 c' bv pos := by
-  rw [R9Index.rank1_ok c bv h pos, R9Index.rank1_ok c' bv h pos]
-theorem rank9_select1 (c c' : Cfg) (bv : BV) (h : bv.Inv) (k : Nat) :
-    R9Index.select1 c (R9Index.buildRank c bv) bv k = R9Index.select1 c' (R9Index.buildRank c' bv) bv k := by
-  rw [R9Index.select1_nohints_ok c bv h k, R9Index.select1_nohints_ok c' bv h k]
-theorem bitvector_scans (c c' : Cfg) (b : BV) (h : b.Inv) (a : Nat) :
-    b.rank1 c a = b.rank1 c' a ∧ b.rank0 c a = b.rank0 c' a ∧ b.select1 c a = b.select1 c' a := by
-  refine ⟨?_, ?_, ?_⟩
-  · rw [BV.rank1_ok c b h a, BV.rank1_ok c' b h a]
-  · rw [BV.rank0_ok c b h a, BV.rank0_ok c' b h a]
-  · rw [BV.select1_ok c b h a, BV.select1_ok c' b h a]
+def Statement : Prop :=
+  -- primitives
+  (∀ (c c' : Cfg) (w k : Nat), popcountN c w = popcountN c' w ∧ selectInWordN c w k = selectInWordN c' w k ∧
+      lsbW c w = lsbW c' w ∧ msbW c w = msbW c' w) ∧
+  -- builders as values
+  (∀ (c c' : Cfg) (bv : BV), bv.Inv → ∀ h1 h0, R9.build c bv h1 h0 = R9.build c' bv h1 h0) ∧
+  (∀ (c c' : Cfg) (bv : BV) (r s0 : Bool), DA.build c bv r s0 = DA.build c' bv r s0) ∧
+  (∀ (c c' : Cfg) (b : EFB), EF.ofBuilder c b = EF.ofBuilder c' b) ∧
+  (∀ (c c' : Cfg) (bv : BV), SA.fromBV c bv = SA.fromBV c' bv) ∧
+  (∀ (c c' : Cfg) (vals : List Nat), DacB.fromSlice c vals = DacB.fromSlice c' vals) ∧
+  (∀ (c c' : Cfg) (vals : List Nat) (ml : Option Nat), DacO.fromSlice c vals ml = DacO.fromSlice c' vals ml) ∧
+  (∀ (c c' : Cfg) (vals : List Nat), vals.sum + 1 < 2^64 → PS.fromSlice c vals = PS.fromSlice c' vals) ∧
+  (∀ (c c' : Cfg) (k : Backing) (s : List Nat), s.foldl max 0 + 1 < 2^64 → WM.new c k s = WM.new c' k s) ∧
+  -- queries, one corollary per property
+  (type_of% @Config.c01) ∧ (type_of% @Config.c02) ∧ (type_of% @Config.c03) ∧ (type_of% @Config.c04) ∧
+  (type_of% @Config.c04_binsearch) ∧ (type_of% @Config.c05) ∧ (type_of% @Config.c06) ∧ (type_of% @Config.c07) ∧
+  (type_of% @Config.c09) ∧ (type_of% @Config.c10) ∧ (type_of% @Config.c11) ∧ (type_of% @Config.c12) ∧
+  (type_of% @Config.c17)
+
+theorem holds : Statement :=
+  ⟨fun c c' w k => ⟨popcountN_cfg c c' w, selectInWordN_cfg c c' w k, lsbW_cfg c c' w, msbW_cfg c c' w⟩,
+   fun c c' bv h h1 h0 => R9_build_cfg c c' bv h h1 h0,
+   fun c c' bv r s0 => DA_build_cfg c c' bv r s0,
+   fun c c' b => EF_ofBuilder_cfg c c' b,
+   fun c c' bv => SA_fromBV_cfg c c' bv,
+   fun c c' vals => DacB_fromSlice_cfg c c' vals,
+   fun c c' vals ml => DacO_fromSlice_cfg c c' vals ml,
+   fun c c' vals hs => PS_fromSlice_cfg c c' vals hs,
+   fun c c' k s hm => WM_new_cfg c c' k s hm,
+   @Config.c01, @Config.c02, @Config.c03, @Config.c04, @Config.c04_binsearch, @Config.c05, @Config.c06, @Config.c07,
+   @Config.c09, @Config.c10, @Config.c11, @Config.c12, @Config.c17⟩
+
+/-- serialized bytes (and `size_in_bytes`) are configuration independent -/
+theorem bytes_rank9sel : type_of% (@Config.bytes_R9) := @Config.bytes_R9
+theorem bytes_darray : type_of% (@Config.bytes_DA) := @Config.bytes_DA
+theorem bytes_elias_fano : type_of% (@Config.bytes_EF) := @Config.bytes_EF
+theorem bytes_sarray : type_of% (@Config.bytes_SA) := @Config.bytes_SA
+theorem bytes_dacs_byte : type_of% (@Config.bytes_DacB) := @Config.bytes_DacB
+theorem bytes_dacs_opt : type_of% (@Config.bytes_DacO) := @Config.bytes_DacO
+theorem bytes_psef : type_of% (@Config.bytes_PS) := @Config.bytes_PS
+theorem bytes_wavelet_matrix : type_of% (@Config.bytes_WM) := @Config.bytes_WM
 end Sucds.C15
